@@ -589,3 +589,83 @@ def const_text_writers(eng, irp):
                 if any(e.kind == 'w' and e.obj == ('P:' + p, ()) for e in s.effects.values()):
                     out.setdefault(name, set()).add(pi)
     return out
+
+
+def rule_kill_bound(ctx, chk, rule='kill-bound'):
+    """Failure cleanup of a partly duplicated path: the loop that frees segment TEXTS stops exactly at the segment whose
+    duplication failed - texts from there on are still the caller's.  Decided on the program with small static helpers
+    inlined (the loop may live in an extracted helper that receives the bound as an argument)."""
+    import re
+    from .main import InlinedCtx
+    from .ir import call_target, manager_call, strip_casts
+    from .cfgutil import expr_key
+    from .tables import base_name
+    from .frontend import AnalysisBroken
+    ictx = InlinedCtx(ctx)
+    chk.rule(rule, 'failure cleanup of a partly duplicated path: the loop that frees segment texts ends exactly at the segment whose '
+             'duplication failed (texts from there on are borrowed)', floor=4)
+    n = 0
+    for suf in ('A', 'W'):
+        for fn in ('uriMakeOwnerEngine', 'uriNormalizeSyntaxEngine'):
+            name = fn + suf
+            f = ictx.irp.funcs.get(name)
+            if f is None:
+                raise AnalysisBroken('%s not found' % name)
+            # segments handed to a duplicating helper: an argument `&(W->text...)`
+            dupvars = set()
+            for b in f.blocks:
+                for i in b.ins:
+                    if i.op == 'call' and call_target(i) and manager_call(i) is None:
+                        for a in i.args or []:
+                            m = re.match(r'^\(?&\(?\(?([A-Za-z_][A-Za-z0-9_#$.]*)->text', expr_key(a))
+                            if m and 'PathSegment' in (f.locals.get(m.group(1)) or ''):
+                                dupvars.add(m.group(1))
+            # copies of parameters made by the inliner
+            alias = {}
+            for b in f.blocks:
+                for i in b.ins:
+                    if i.op == 'assign' and i.x and i.x.get('inlined_param') and i.dst is not None and i.dst.k == 'ref':
+                        alias[i.dst.v] = expr_key(i.src)
+            # loops `while (R != B)` whose body frees R->text.first
+            found = 0
+            for b in f.blocks:
+                t = b.term
+                if t[0] != 'br':
+                    continue
+                c = strip_casts(t[1])
+                if c is None or c.k != 'bin' or c.v not in ('!=', '=='):
+                    continue
+                ka, kb = expr_key(c.c[0]), expr_key(c.c[1])
+                for R, B in ((ka, kb), (kb, ka)):
+                    if 'PathSegment' not in (f.locals.get(R) or ''):
+                        continue
+                    body = t[2] if c.v == '!=' else t[3]
+                    # blocks reachable from the body entry without passing through the test block
+                    seen, st = set(), [body]
+                    frees_text = False
+                    while st:
+                        x = st.pop()
+                        if x.id in seen or x.id == b.id:
+                            continue
+                        seen.add(x.id)
+                        for i in x.ins:
+                            if i.op == 'call':
+                                mc = manager_call(i)
+                                if mc and mc[0] == 'free' and len(i.args) > 1 and re.search(r'(?<![A-Za-z0-9_#$.])%s->text\.first' % re.escape(R),
+                                                                                            expr_key(i.args[1])):
+                                    frees_text = True
+                        st.extend(x.succs())
+                    if not frees_text or b.id not in seen and not any(s.id == b.id for bb in f.blocks if bb.id in seen for s in bb.succs()):
+                        continue
+                    found += 1
+                    n += 1
+                    bound = alias.get(B, B)
+                    ok = bound in dupvars
+                    chk.add(rule, 'kill-bound:%s' % (name if ok else base_name(name)), ok, b.loc,
+                            '%s: the loop that frees the texts of the segments duplicated so far runs up to `%s`; the segment whose '
+                            'duplication failed is `%s`%s' % (name, bound, '`, `'.join(sorted(dupvars)) or '?',
+                                                              '' if ok else ' - texts between the two are freed although they are the caller\'s, or kept although fresh'),
+                            func=name)
+            if not found:
+                raise AnalysisBroken('%s: the text-freeing cleanup loop was not recognised' % name)
+    return n
